@@ -679,6 +679,7 @@ asn_double2REAL(REAL_t *st, double dbl_value) {
 	char assertion_buffer1[9 - sizeof(dbl_value)] CC_NOTUSED;
 	char assertion_buffer2[sizeof(dbl_value) - 7] CC_NOTUSED;
 	uint8_t *ptr = buf;
+	uint8_t *mstart = dscr;	/* First byte of mantissa */
 	uint8_t *mstop;		/* Last byte of mantissa */
 	unsigned int mval;	/* Value of the last byte of mantissa */
 	unsigned int bmsign;	/* binary mask with sign */
@@ -791,6 +792,10 @@ asn_double2REAL(REAL_t *st, double dbl_value) {
 		expval += shift_count;
 	}
 
+	/* DER wants the mantissa in the fewest octets: 11.3.1 */
+	while(mstart < mstop && *mstart == 0)
+		mstart++;
+
 	if(expval < 0) {
 		if((expval >> 7) == -1) {
 			*ptr++ = bmsign | 0x00;
@@ -820,8 +825,8 @@ asn_double2REAL(REAL_t *st, double dbl_value) {
 		*ptr++ = expval;
 	}
 
-	buflen = (mstop - dscr) + 1;
-	memcpy(ptr, dscr, buflen);
+	buflen = (mstop - mstart) + 1;
+	memcpy(ptr, mstart, buflen);
 	ptr += buflen;
 	buflen = ptr - buf;
 
